@@ -13,6 +13,8 @@ Tie (B): differential correspondence, the model interpreters being evaluated by 
              (recovered from __context__) -> recast exception
   tree    -- scripted-failure expression trees through FormulaGrader (which child fails first, which clause recasts)
   numpy   -- handle_np_floating_errors on numpy's messages
+  towers  -- (oracle only) graders with integer-valued names in scope x power towers built only from those names, in a child
+             process with a hard deadline
   expect  -- ItemGrader.__call__ with valid / invalid author `expect` values (inference happens outside the guarded region)
 Oracle on the implementation (independent of the model): exception family, class/message preservation with <br/>,
 generic message naming the submission, refusal of non-text before check is consulted, 10 s alarm, numpy error state,
@@ -819,6 +821,49 @@ ANTICIPATED = [
 ]
 
 
+UNBALANCED = object()   # UnbalancedBrackets with its own 'Invalid Input: ...<code>...</code>' message, line breaks rendered
+
+
+def unbalanced_kinds(d):
+    """deeply nested, UNBALANCED texts of each kind (missing closer, extra closer, wrong closer type, mixed ([{ )"""
+    k = d // 2
+    return [('missing-sin', 'sin(' * d + '1' + ')' * (d - 1)), ('missing-sum', '(1+' * d + '1' + ')' * (d - 1)),
+            ('missing-paren', '(' * d + '1' + ')' * (d - 1)), ('missing-square', '[' * d + '1' + ']' * (d - 1)),
+            ('extra-paren', '(' * d + '1' + ')' * (d + 1)), ('extra-sin', 'sin(' * d + '1' + ')' * (d + 1)),
+            ('wrong-paren', '(' * d + '1' + ')' * (d - 1) + ']'), ('wrong-sin', 'sin(' * d + '1' + ']' + ')' * (d - 1)),
+            ('mixed-order', '([' * k + '1' + '])' * (k - 1) + ')]'), ('mixed-curly', '([{' * k + '1' + '}])' * (k - 1) + '}]')]
+
+
+# how a formula text reaches every formula-parsing grader of the zoo (directly, inside single-box lists, inside ListGraders)
+EMBED = [('Formula', lambda s: s), ('Formula/user', lambda s: s), ('Formula/restricted', lambda s: s), ('Formula/inf', lambda s: s),
+         ('Formula/dependent', lambda s: s), ('Numerical', lambda s: s), ('Numerical/user', lambda s: s), ('Matrix', lambda s: s),
+         ('Matrix/vars', lambda s: s), ('Matrix/quiet', lambda s: s), ('Matrix/noshape', lambda s: s), ('Matrix/partial', lambda s: s),
+         ('Interval', lambda s: '[' + s + ',2)'), ('Interval/inf', lambda s: '(' + s + ',2]'), ('Sum', lambda s: s),
+         ('Sum/limits', lambda s: ['list', ['1', '5', s, 'n']]), ('SingleList/formula', lambda s: s + ',2'),
+         ('SingleList/nested', lambda s: s + ',2;3,4'), ('SingleList/matrix', lambda s: s + ';[3,4]'),
+         ('List/formula-ordered', lambda s: ['list', [s, 'x', 'x^2']]), ('List/mixed', lambda s: ['list', ['cat', s, '[1,2]']]),
+         ('List/grouped', lambda s: ['list', [s, '2', '3', '4']]), ('List/grouped-mixed', lambda s: ['list', ['a', s, '1,2', 'b', '3']]),
+         ('List/siblings', lambda s: ['list', ['2', s]])]
+
+
+def deep_unbalanced_rows(tier):
+    """unbalanced text is an anticipated problem at ANY nesting depth: UnbalancedBrackets, never the generic error
+    (deep BALANCED nesting legitimately ends in the generic error: RecursionError is unanticipated)"""
+    rows = []
+    depths = (50, 120, 400)
+    for gi, (name, emb) in enumerate(EMBED):
+        for di, d in enumerate(depths):
+            kinds = unbalanced_kinds(d)
+            for ki, (kind, text) in enumerate(kinds):
+                if tier != 'quick' or name == 'Formula' or (ki + gi) % len(kinds) in ((0, 5) if d == 120 else (2 + di,)):
+                    rows.append((name, emb(text), 'UnbalancedBrackets', UNBALANCED))
+    return rows
+
+
+def anticipated_rows(tier):
+    return ANTICIPATED + deep_unbalanced_rows(tier)
+
+
 def zoo_entry(name):
     for n, m, f, c in zoo():
         if n == name:
@@ -847,6 +892,10 @@ def check_anticipated(row):
             if k < 0:
                 return 'generic error does not name the submitted text %r' % t[:80]
             pos = k + len(t)
+    elif msg is UNBALANCED:
+        got = str(val)
+        if not (got.startswith('Invalid Input:') and got.endswith('</code>') and '<mark>' in got and '\n' not in got):
+            return 'UnbalancedBrackets message is %r' % got[:200]
     elif msg is not None and str(val) != msg:
         return 'expected message %r, got %r' % (msg[:300], str(val)[:300])
     return None
@@ -1207,6 +1256,8 @@ def run_brackets(ctx, res, rng):
     P = MathParser()
     texts = [s for s in CORPUS] + [gen_text(rng) for _ in range(200 if quick else 2000)]
     texts += ['(' * 2500 + '1' + ')' * 2500, '1 + ( 2', ' ( 1 ) + ', '1 +', ' 1 + 2 ', '( [ ) ]']
+    for d in (50, 120, 400):
+        texts += [t for _, t in unbalanced_kinds(d)]
     pool_reset()
     terms, metas = [], []
     kinds = {}
@@ -1384,6 +1435,219 @@ def run_numpy(ctx, res, rng):
 
 
 # ------------------------------------------------------------------------------------------------
+# integer power towers: exact Python ints in the student's scope must not reach arbitrary-precision arithmetic
+# (the call has to come back).  Runs in a child process with a hard deadline: a hang in big-int arithmetic need not
+# answer SIGALRM, and must never hang the check itself.
+# ------------------------------------------------------------------------------------------------
+INT_NAMES = {'IntFormula/const': ['N', 'M', 'K'], 'IntFormula/range': ['n', 'm'], 'IntFormula/discrete': ['k', 'q'],
+             'IntNumerical/const': ['N', 'M'], 'IntMatrix/const': ['N', 'M'], 'IntMatrix/range': ['n'],
+             'IntInterval': ['N', 'M'], 'IntSum': ['N', 'n'], 'IntSingleList': ['N', 'M'], 'IntList': ['N', 'M'],
+             'IntList/nested': ['n', 'm']}
+INT_EMBED = {'IntInterval': lambda s: '[' + s + ',M)', 'IntSingleList': lambda s: s + ',M', 'IntList': lambda s: ['list', [s, 'M']],
+             'IntList/nested': lambda s: ['list', ['m', s, 'n,m']]}
+
+
+def int_zoo(name):
+    """graders whose scope contains integer-valued Python ints (constants, IntegerRange / DiscreteSet samples)"""
+    from mitxgraders import (FormulaGrader, NumericalGrader, MatrixGrader, IntervalGrader, SumGrader, SingleListGrader, ListGrader,
+                             IntegerRange, DiscreteSet)
+    consts = {'N': 9, 'M': 12, 'K': 7}
+    rng2 = {'n': IntegerRange([5, 9]), 'm': IntegerRange([8, 12])}
+    if name == 'IntFormula/const':
+        return FormulaGrader(answers='N', user_constants=consts)
+    if name == 'IntFormula/range':
+        return FormulaGrader(answers='n', variables=['n', 'm'], sample_from=rng2)
+    if name == 'IntFormula/discrete':
+        return FormulaGrader(answers='k', variables=['k', 'q'], sample_from={'k': DiscreteSet((7, 9, 12)), 'q': DiscreteSet((9,))})
+    if name == 'IntNumerical/const':
+        return NumericalGrader(answers='9', user_constants={'N': 9, 'M': 12})
+    if name == 'IntMatrix/const':
+        return MatrixGrader(answers='[N,M]', user_constants={'N': 9, 'M': 12}, max_array_dim=2)
+    if name == 'IntMatrix/range':
+        return MatrixGrader(answers='[n,1]', variables=['n'], sample_from={'n': IntegerRange([7, 9])}, max_array_dim=2)
+    if name == 'IntInterval':
+        return IntervalGrader(answers='[N,M)', subgrader=FormulaGrader(user_constants={'N': 9, 'M': 12}))
+    if name == 'IntSum':
+        return SumGrader(answers={'lower': '1', 'upper': 'N', 'summand': 'n', 'summation_variable': 'n'}, input_positions={'summand': 1},
+                         user_constants={'N': 9})
+    if name == 'IntSingleList':
+        return SingleListGrader(answers=['N', 'M'], subgrader=NumericalGrader(user_constants={'N': 9, 'M': 12}))
+    if name == 'IntList':
+        return ListGrader(answers=['N', 'M'], subgraders=FormulaGrader(user_constants={'N': 9, 'M': 12}), ordered=True)
+    if name == 'IntList/nested':
+        return ListGrader(answers=['m', 'n', 'n,m'], ordered=True,
+                          subgraders=[FormulaGrader(variables=['n', 'm'], sample_from=rng2),
+                                      FormulaGrader(variables=['n', 'm'], sample_from=rng2),
+                                      SingleListGrader(subgrader=FormulaGrader(variables=['n', 'm'], sample_from=rng2))])
+    raise KeyError(name)
+
+
+def int_towers(rng, names, extra):
+    """power towers of height 3-5, nested powers and factor-free combinations built ONLY from integer-valued names"""
+    a = names[0]
+    b = names[1 % len(names)]
+    fixed = ['%s^%s^%s' % (a, a, a), '%s^%s^%s^%s' % (a, a, a, a), '%s^%s^%s^%s^%s' % (a, a, a, a, a), '(%s^%s)^(%s^%s)' % (a, a, a, a),
+             '%s^(%s^%s)' % (a, b, a), '%s^%s^%s' % (b, a, b), '%s^%s^(%s^%s)' % (a, a, a, a), '(%s^%s^%s)^%s' % (a, a, a, a),
+             '%s^(%s*%s)^%s' % (a, a, a, a), '%s^(%s+%s)^(%s+%s)' % (a, a, b, b, a), '(%s*%s)^(%s^%s)' % (a, b, a, b),
+             '-%s^%s^%s^%s' % (a, a, a, a), '%s^%s^%s^%s+%s' % (a, b, a, b, a), '%s/%s^%s^%s^%s' % (a, a, b, a, b),
+             '%s^-%s^%s^%s' % (a, a, a, a), '(%s^%s^%s)*(%s^%s^%s)' % (a, a, a, b, b, b)]
+
+    def atom():
+        r = rng.random()
+        if r < 0.7:
+            return rng.choice(names)
+        return '(%s%s%s)' % (rng.choice(names), rng.choice('*+'), rng.choice(names))
+
+    def tower(h):
+        return '^'.join(atom() for _ in range(h))
+    out = list(fixed)
+    for _ in range(extra):
+        h = rng.randint(3, 5)
+        t = tower(h)
+        if rng.random() < 0.3:
+            t = '(%s)^(%s)' % (tower(2), tower(rng.randint(2, 3)))
+        out.append(t)
+    return out
+
+
+def int_tower_child():
+    """child process: reads {grader, input} JSON lines, answers one JSON line each"""
+    import json
+    try:
+        import resource
+        cap = 4 * 1024 ** 3
+        resource.setrlimit(resource.RLIMIT_AS, (cap, cap))
+    except Exception:
+        pass
+    graders = {}
+    sys.stdout.write('READY\n')
+    sys.stdout.flush()
+    for line in sys.stdin:
+        job = json.loads(line)
+        name = job['grader']
+        try:
+            if name not in graders:
+                graders[name] = int_zoo(name)
+            g = graders[name]
+            inp = build_object(job['input'])
+            rec = observe_once(g, inp, None, job.get('seed', 0), job.get('alarm', 10))
+            mode = LIST if name.startswith('IntList') else BOTH if name == 'IntSum' else ITEM
+            what = judge(mode, False, None, inp, rec)
+            out = {'status': rec['status'], 'class': type(rec['val']).__name__ if rec['status'] == 'exc' else None,
+                   'message': str(rec['val'])[:160] if rec['status'] == 'exc' else None, 'what': what, 'seconds': round(rec['seconds'], 3)}
+        except BaseException as e:      # noqa
+            out = {'status': 'child-error', 'class': type(e).__name__, 'message': str(e)[:300], 'what': None, 'seconds': 0}
+        sys.stdout.write(json.dumps(out) + '\n')
+        sys.stdout.flush()
+
+
+class TowerChild(object):
+    def __init__(self):
+        import os
+        import subprocess
+        env = dict(os.environ)
+        env['PYTHONPATH'] = os.pathsep.join([core.REPO, core.VERIF])
+        self.p = subprocess.Popen([sys.executable, '-B', '-c', 'from harness.props import c02; c02.int_tower_child()'],
+                                  stdin=subprocess.PIPE, stdout=subprocess.PIPE, stderr=subprocess.DEVNULL, env=env, cwd=core.VERIF)
+        self.buf = b''
+        if self.readline(180) != 'READY':
+            self.kill()
+            raise RuntimeError('integer-tower child process did not start')
+
+    def readline(self, deadline):
+        """one line from the child, or None when the hard deadline passes / the child died"""
+        import os
+        import select
+        end = time.time() + deadline
+        while b'\n' not in self.buf:
+            left = end - time.time()
+            if left <= 0:
+                return None
+            r, _, _ = select.select([self.p.stdout], [], [], left)
+            if not r:
+                return None
+            chunk = os.read(self.p.stdout.fileno(), 65536)
+            if not chunk:
+                return None
+            self.buf += chunk
+        line, _, self.buf = self.buf.partition(b'\n')
+        return line.decode('utf-8', 'replace').strip()
+
+    def ask(self, job, deadline):
+        import json
+        try:
+            self.p.stdin.write((json.dumps(job) + '\n').encode())
+            self.p.stdin.flush()
+        except (OSError, ValueError):
+            return None
+        line = self.readline(deadline)
+        return json.loads(line) if line else None
+
+    def kill(self):
+        try:
+            self.p.kill()
+            self.p.wait(10)
+        except Exception:
+            pass
+
+
+def tower_call(child, job):
+    """returns (child, answer, hung).  A call stopped by the 10 s alarm inside the child (or not answering within 20 s at all) is
+    repeated once in a fresh child with a 40 s alarm and a 60 s hard deadline; only then it counts as not terminating."""
+    ans = child.ask(job, 20)
+    if ans is not None and ans['status'] != 'timeout':
+        return child, ans, False
+    child.kill()
+    child = TowerChild()
+    t0 = time.time()
+    ans = child.ask(dict(job, alarm=40), 60)
+    if ans is not None and ans['status'] != 'timeout':
+        return child, ans, False
+    waited = time.time() - t0
+    child.kill()
+    return None, {'status': 'timeout', 'what': 'the call did not come back within %.0f s (nor within 10 s in a first process): '
+                                               'it does not terminate in any reasonable time' % waited}, True
+
+
+def run_int_towers(ctx, res, rng):
+    jobs = []
+    for name in sorted(INT_NAMES):
+        emb = INT_EMBED.get(name, lambda s: s)
+        for t in int_towers(rng, INT_NAMES[name], 4 if ctx['tier'] == 'quick' else 40):
+            jobs.append({'grader': name, 'input': emb(t), 'seed': ctx['seed']})
+    child = TowerChild()
+    outcomes = {}
+    slow = 0.0
+    done = 0
+    try:
+        for job in jobs:
+            if child is None:
+                break
+            child, ans, hung = tower_call(child, job)
+            res.oracle_evals += 1
+            done += 1
+            if ans['status'] == 'child-error':
+                raise RuntimeError('integer-tower child failed: %s %s' % (ans['class'], ans['message']))
+            k = ans.get('class') or ans['status']
+            outcomes[k] = outcomes.get(k, 0) + 1
+            slow = max(slow, ans.get('seconds', 0) or 0)
+            if ans.get('what'):
+                res.witnesses.append({'key': 'int-tower:%s:%r' % (job['grader'], job['input']), 'kind': 'int-tower', 'grader': job['grader'],
+                                      'input': job['input'], 'what': ans['what']})
+            if ans['status'] == 'exc':
+                res.nontrivial.add(('int-tower', job['grader'], repr(job['input'])))
+            if hung:
+                res.notes.append('integer-tower stream stopped after the first call that did not terminate (%d of %d run)' % (done, len(jobs)))
+    finally:
+        if child is not None:
+            child.kill()
+    res.distribution['integer_tower_calls'] = done
+    res.distribution['integer_tower_outcomes'] = outcomes
+    res.distribution['integer_tower_slowest_s'] = slow
+    res.samples.append({'integer_tower': jobs[1]})
+
+
+# ------------------------------------------------------------------------------------------------
 def run(ctx):
     import glob
     import os
@@ -1399,14 +1663,17 @@ def run(ctx):
                 'brackets: every string over ()[]{}a up to the stated length, non-trivial = unbalanced; scripted trees distinct by text, '
                 'non-trivial = the call raised')
     # anticipated problems first (fixed corpus, found on every run)
-    for row in ANTICIPATED:
+    rows = anticipated_rows(ctx['tier'])
+    for ri, row in enumerate(rows):
         what = check_anticipated(row)
         res.oracle_evals += 1
         if what:
             spec = row[1]
             res.witnesses.append({'key': 'anticipated:%s:%r' % (row[0], spec if len(repr(spec)) < 200 else hash(repr(spec))),
-                                  'kind': 'anticipated', 'row': ANTICIPATED.index(row), 'grader': row[0],
-                                  'input': spec if len(repr(spec)) < 2000 else '(long)', 'what': what})
+                                  'kind': 'anticipated', 'row': ri, 'tier': ctx['tier'], 'grader': row[0],
+                                  'input': spec if len(repr(spec)) < 300 else repr(spec)[:120] + '... (%d characters)' % len(repr(spec)),
+                                  'what': what})
+    res.distribution['anticipated_rows_deep_unbalanced'] = len(rows) - len(ANTICIPATED)
     res.distribution['anticipated_rows'] = len(ANTICIPATED)
     phases = {}
     t0 = time.time()
@@ -1424,6 +1691,9 @@ def run(ctx):
     run_trees(ctx, res, rng)
     run_numpy(ctx, res, rng)
     phases['trees+numpy'] = round(time.time() - t0, 1)
+    t0 = time.time()
+    run_int_towers(ctx, res, rng)
+    phases['integer-towers'] = round(time.time() - t0, 1)
     res.distribution['phase_seconds'] = phases
     what = numpy_state_problem()
     if what:
@@ -1435,7 +1705,7 @@ def run(ctx):
 def replay(w):
     kind = w.get('kind')
     if kind == 'anticipated':
-        what = check_anticipated(ANTICIPATED[w['row']])
+        what = check_anticipated(anticipated_rows(w.get('tier', 'quick'))[w['row']])
         return bool(what), 'anticipated problem %r on %s: %s' % (w.get('input'), w['grader'], what or 'as documented')
     if kind in ('call', 'tree'):
         if kind == 'tree':
@@ -1451,6 +1721,13 @@ def replay(w):
         rec = observe(g, inp, attempt=attempt, seed=1)
         what = judge(mode, credit, attempt, inp, rec)
         return bool(what), '%s on %r: %s' % (w.get('grader', 'FormulaGrader(scripted)'), w.get('input', w.get('text')), what or 'conforms')
+    if kind == 'int-tower':
+        child = TowerChild()
+        child, ans, hung = tower_call(child, {'grader': w['grader'], 'input': w['input'], 'seed': 0})
+        if child is not None:
+            child.kill()
+        return bool(ans.get('what')), '%s on %r: %s' % (w['grader'], w['input'], ans.get('what') or 'conforms (%s, %s s)' % (
+            ans.get('class') or ans['status'], ans.get('seconds')))
     if kind == 'ensure':
         from mitxgraders.baseclasses import AbstractGrader
         from mitxgraders.exceptions import ConfigError
